@@ -193,14 +193,35 @@ theorem unsplit_lookup {P : Params} (hv : P.v = repaired) (httl : 0 < P.ttl) (ev
     obtain ⟨c, hval, _⟩ := h.store.client x e (find_some hf)
     simp only [hval]
 
+/-- **A consumer of the lookup has no effect either.**  `SendHTTPProxyRequest` / `SendCommandToClient` / the DNS
+forwarders read the node-local registry, then the shared store, and decide; neither step — whatever falls between them,
+whatever they conclude ("state inconsistent" included) — changes the shared store, the runtime state or a registry. -/
+theorem consumer_is_read_only (P : Params) (st : St) (k : ReqKind) (j x : Nat) :
+    (step P st (.reqBegin k j x)).store = st.store ∧ (step P st (.reqBegin k j x)).nodes = st.nodes ∧
+    (step P st (.reqBegin k j x)).rstore = st.rstore ∧
+    (step P st (.reqEnd k j x)).store = st.store ∧ (step P st (.reqEnd k j x)).nodes = st.nodes ∧
+    (step P st (.reqEnd k j x)).rstore = st.rstore :=
+  ⟨rfl, rfl, rfl, rfl, rfl, rfl⟩
+
+/-- A consumer whose two steps are adjacent decides what `route` (the atomic decision the observations use) decides
+on a running node. -/
+theorem unsplit_request (P : Params) (st : St) (k : ReqKind) (j x : Nat) :
+    requestOutcome P (requestBegin st k j x) k j x = routeUp P st j x := by
+  unfold requestOutcome requestBegin routeUp
+  simp only [FMap.lookup_insert_eq]
+  cases FMap.lookup (st.nodes j).byClient x <;> rfl
+
+/-- Lookups and their consumers. -/
 def isLookup : Ev → Bool
   | .lookBegin _ _ => true
   | .lookEnd _ _ => true
+  | .reqBegin _ _ _ => true
+  | .reqEnd _ _ _ => true
   | _ => false
 
-/-- **Lookups never make a client unfindable.**  After any history in which `x`'s registration on `c` is valid,
-any number of lookups by any nodes for any clients — begun, ended, left in flight, in any order — leaves the
-lookup at `(c.node, c)`.  (Together with `lookup_finds_current_node`, whose histories contain split lookups
+/-- **Lookups and their consumers never make a client unfindable.**  After any history in which `x`'s registration on
+`c` is valid, any number of lookups and of HTTP-proxy / command requests by any nodes for any clients — begun, ended,
+left in flight, in any order — leaves the lookup at `(c.node, c)`.  (Together with `lookup_finds_current_node`, whose histories contain split lookups
 interleaved with every other event.) -/
 theorem lookups_keep_findable {P : Params} (hv : P.v = repaired) (httl : 0 < P.ttl) (evs : List Ev)
     {x : Nat} {c : Conn} {u : Nat}
@@ -468,9 +489,13 @@ and no registry query in between or before (the extractor lists `getControlConne
 theorem skel_CloseConnection : Gen.Skel.CloseConnection =
     ["delete", "RemoveControlConnection", "RemoveTunnelConnection", "connStateStore.UnregisterConnection"] := by decide
 
-/-- `FindClientNode` reads only: one `Get` of the index, then `GetConnectionState` (one `Get` of the record; its only
+/-- The consumers of the lookup reach the store through `FindClientNode` only (no `UnregisterConnection` /
+`RegisterConnection` / `RefreshConnection`, no registry removal).  `FindClientNode` reads only: one `Get` of the index, then `GetConnectionState` (one `Get` of the record; its only
 write is the removal of the very record it found expired — a key that names that connection id and nothing else). -/
 theorem skel_lookup_reads :
+    Gen.Skel.SendHTTPProxyRequest_writes = ["GetControlConnectionByClientID", "connStateStore.FindClientNode"] ∧
+    Gen.Skel.sendCommandCrossNode_writes = ["connStateStore.FindClientNode"] ∧
+    Gen.Skel.handleDNSQueryCrossNode_writes = ["connStateStore.FindClientNode"] ∧
     Gen.Skel.FindClientNode_storage = ["storage.Get", "GetConnectionState"] ∧
     Gen.Skel.GetConnectionState_storage = ["storage.Get", "storage.Delete"] ∧
     Gen.Skel.clientIndexPointsTo_storage = ["storage.Get"] := by decide
@@ -737,6 +762,15 @@ example : findClientNode ⟨repaired, .str, 1000, 90000⟩
     (reach ⟨repaired, .str, 1000, 90000⟩ ([.open c0, .hs c0 true, .tick 600, .hb c0, .tick 600, .hb c0] ++ [.hs c0 true, .tick 900])).2.now
     (reach ⟨repaired, .str, 1000, 90000⟩ ([.open c0, .hs c0 true, .tick 600, .hb c0, .tick 600, .hb c0] ++ [.hs c0 true, .tick 900])).2.store 7
       = .found 0 c0 := by decide
+
+/-- The seeded interleaving is inside the quantifier: an HTTP-proxy request for client 7 reads node 0's registry (miss),
+the client's handshake on node 0 completes, the request goes on to the store (finds node 0 itself: "inconsistent") —
+and the client is still found by everybody afterwards. -/
+example :
+    let P : Params := ⟨repaired, .str, 1000, 90000⟩
+    let h : List Ev := [.open c0, .reqBegin .http 0 7, .hs c0 true, .reqEnd .http 0 7, .hb c0]
+    requestOutcome P (reach P [.open c0, .reqBegin .http 0 7, .hs c0 true]).2 .http 0 7 = .incons ∧
+    findClientNode P (reach P h).2.now (reach P h).2.store 7 = .found 0 c0 := by decide
 
 /-! ## Non-vacuity -/
 
